@@ -70,6 +70,14 @@ Theorem C10_min_load_compare_store_refuted :
     all_done (snd c) = true /\ fst c 7%N <> minZ (-1) (concat (map (recorded_total 7%N) ts)).
 Proof. exact min_lcs_refuted. Qed.
 
+(* a single compare-and-swap attempt without the retry loses the extreme as well *)
+Theorem C10_max_single_attempt_refuted :
+  exists ts sched,
+    let c := run (fun _ => 0, ts) sched in
+    (forall t, In t ts -> t_secs t = [single_cas_sec 7%N] /\ t_si t = 0%nat /\ t_pc t = 0%nat) /\
+    all_done (snd c) = true /\ fst c 7%N <> maxZ 0 (concat (map (recorded_total 7%N) ts)).
+Proof. exact max_single_cas_refuted. Qed.
+
 (* ---- every call returns what it returns when run alone ----
    Goroutines that share only pools (any number, any schedule, any choice of which pooled object a Get receives,
    including a new one): under the pool discipline (C09: what Put stores is observationally what New builds) and if
@@ -110,6 +118,7 @@ Print Assumptions C10_monitor_totals_exact.
 Print Assumptions C10_counters_exact_always.
 Print Assumptions C10_max_load_compare_store_refuted.
 Print Assumptions C10_min_load_compare_store_refuted.
+Print Assumptions C10_max_single_attempt_refuted.
 Print Assumptions C10_results_sequential.
 Print Assumptions C10_footprint_race_free.
 Print Assumptions C10_common_lock_orders.
@@ -122,7 +131,7 @@ Definition ex_threads : list thread :=
     start metrics_RecordTokenization [7; 300; 0; 1002; 0];
     start metrics_RecordParse [9; 2; 0; 1003; 0; 0] ].
 Definition ex_sched : list nat :=
-  concat (repeat [0; 1; 2; 3; 2; 1; 0]%nat 12).
+  concat (repeat [0; 1; 2; 3; 2; 1; 0]%nat 60).   (* long enough for any reasonable layout of the loops; finished threads stutter *)
 Definition ex_init : mem := fun l => if N.eqb l metrics_pub_MinQuerySize then -1 else 0.
 
 Example ex_hyp : forall t, In t ex_threads -> In (t_secs t) metrics_progs /\ t_si t = 0%nat /\ t_pc t = 0%nat.
